@@ -126,12 +126,18 @@ def group_values(case):
     return [tuple(c[i] for c in pb) for i in range(n)], [tuple(c[i] for c in sb) for i in range(n)]
 
 
-def headings_brought(prev_key, key):
-    """Heading rows a row brings when it follows prev_key on the same page: levels from the first changed
-    level down (outer change forces inner levels), dividers excluded."""
+def heading_lines(v, width_in=6.25):
+    """Lower bound on the lines of a heading row showing v across a table of this width (default font, 9 pt)."""
+    return metrics.lines_lower_bound(str(v), 1, 9, width_in)
+
+
+def headings_brought(prev_key, key, weight=None):
+    """Heading LINES a row brings when it follows prev_key on the same page: levels from the first changed
+    level down (outer change forces inner levels), dividers excluded.  weight(v) = lines of one heading (default 1)."""
     silent = ("-----", None)
+    weight = weight or (lambda v: 1)
     if prev_key is None:
-        return sum(1 for v in key if v not in silent)
+        return sum(weight(v) for v in key if v not in silent)
     first = None
     for lvl, (a, b) in enumerate(zip(prev_key, key)):
         if a != b:
@@ -139,4 +145,4 @@ def headings_brought(prev_key, key):
             break
     if first is None:
         return 0
-    return sum(1 for v in key[first:] if v not in silent)
+    return sum(weight(v) for v in key[first:] if v not in silent)
